@@ -126,6 +126,18 @@ func genLex(c *hx.Ctx, r *proto.Rand, corpus *lexh.Corpus) []lexCase {
 			add("truncation-seed", 'p', 0, false, s.Data[:k])
 		}
 	}
+	// 3b. the structural stream: every item at every position of every block construct, in HTML and, in turn,
+	// in the other formats (thorough: in all six)
+	for i, t := range lexh.Structural() {
+		add("structural", 't', 1, false, []byte(t))
+		if c.Quick() {
+			add("structural", 't', []int{0, 2, 3, 4, 5}[i%5], false, []byte(t))
+		} else {
+			for _, f := range []int{0, 2, 3, 4, 5} {
+				add("structural", 't', f, false, []byte(t))
+			}
+		}
+	}
 	// and of sampled valid sources
 	for i := 0; i < c.N(40, 400); i++ {
 		var s lexh.Source
@@ -402,9 +414,17 @@ func run(c *hx.Ctx) error {
 	var origins []string
 	nb := c.N(9000, 120000)
 	step := max(1, len(cases)/nb)
-	for i := 0; i < len(cases); i += step {
-		builds = append(builds, buildCaseOf(cases[i].Case))
-		origins = append(origins, cases[i].origin)
+	for i := 0; i < len(cases); i++ {
+		if i%step == 0 || cases[i].origin == "structural" {
+			bc := buildCaseOf(cases[i].Case)
+			if cases[i].origin == "structural" { // the files the structural items refer to
+				for n, d := range structuralSupport {
+					bc.Files[n] = []byte(d)
+				}
+			}
+			builds = append(builds, bc)
+			origins = append(origins, cases[i].origin)
+		}
 	}
 	for i := 0; i < c.N(1500, 20000); i++ {
 		t := corpus.Trees[r.Intn(len(corpus.Trees))]
@@ -535,6 +555,11 @@ func run(c *hx.Ctx) error {
 	res.Histogram["build-child-crashes"] = buildRunner.Crashes
 	res.Histogram["build-child-hangs"] = buildRunner.Hangs
 	return nil
+}
+
+var structuralSupport = map[string]string{
+	"layout.html": `<html>{{ Body() }}</html>`, "l.html": `x`, "m.html": `{% macro M %}m{% end %}`,
+	"n.html": `{% macro N %}n{% end %}`, "p.html": `<i>p</i>`,
 }
 
 func sortedNames(m map[string][]byte) []string {
